@@ -26,5 +26,5 @@ Next == Extend \/ SendRef \/ InjectRef \/ DeliverK \/ Finish
 Spec == Init /\ [][Next]_<<vars, draft>>
 
 \* vacuity: the interesting line shapes do occur
-View == <<cfg, body, wire, sent, consumed, mach, out, draft>>
+View == <<cfg, body, wire, sent, exp, consumed, mach, out, draft>>
 =============================================================================
